@@ -211,7 +211,8 @@ RemovableInter(mm, v, S) == ~IsGOut(mm, v) /\ Uses(mm, v) \subseteq S
 \* producer of value v if it is a node of graph g with operator op (matches never cross graph boundaries)
 InnerNode(mm, v, g, op) == LET p == mm.vals[v].p IN
                            IF p # 0 /\ mm.nodes[p].g = g /\ mm.nodes[p].op = op /\ mm.nodes[p].dom = "" /\ InOrder(mm, p) THEN p ELSE 0
-IsConst1(mm, v) == mm.vals[v].k = 1 /\ v # CTRUE
+\* _match_constant: a Python scalar in a pattern matches rank-0 constants only; "one1" is the constant 1 of shape [1]
+IsConst1(mm, v) == mm.vals[v].k = 1 /\ v # CTRUE /\ mm.vals[v].name # "one1"
 MatchV0(mm, nid, r, sw, devs) ==
   LET n == mm.nodes[nid]
       i1 == IF sw THEN 2 ELSE 1
@@ -520,7 +521,7 @@ Cands ==
   IN LastOuts(m, g, 1) \cup LastOuts(m, g, 2) \cup outer \cup carried \cup {IA, IB}
 CandsU == Cands \ {IB}
 Primary == LET g == Top.g IN IF LastOuts(m, g, 1) # {} THEN LastOuts(m, g, 1) ELSE {IA}
-Unary == {"Neg", "Relu", "Identity", "Mul1", "Mul1c", "Mul3", "I_negneg", "I_dag", "I_dagr", "I_dagm", "I_dagms", "Drop", "I_drop2", "I_dropm"}
+Unary == {"Neg", "Relu", "Identity", "Mul1", "Mul1c", "Mul1v", "Mul1vc", "Mul3", "I_negneg", "I_dag", "I_dagr", "I_dagm", "I_dagms", "Drop", "I_drop2", "I_dropm"}
 \* host-building steps.  Besides single nodes there are INSTANCE steps (a whole instance of a pattern, C06 style):
 \*   I_negneg(x) = Neg(Neg(x))      I_fn(x,y) = Add(Neg(x), y)      I_fnc(x,y) = Add(y, Neg(x))
 \*   I_dag(x) = n=Neg(x); r=Relu(n); Add(n,r)    I_dagr: Add(r,n)    I_dagm(x) = n=Neg(x); Relu(n); Identity(n)
@@ -537,6 +538,8 @@ ArgChoices(op) ==
 Steps(op, a, v1) ==          \* v1: the id the first new value will get
   CASE op = "Mul1" -> << <<"Mul", <<a[1], ONE>>>> >>
     [] op = "Mul1c" -> << <<"Mul", <<ONE, a[1]>>>> >>
+    [] op = "Mul1v" -> << <<"Mul", <<a[1], ONE>>>> >>          \* hosts of the Mul1v family: ONE is the rank-1 constant "one1" (near miss of x * 1)
+    [] op = "Mul1vc" -> << <<"Mul", <<ONE, a[1]>>>> >>
     [] op = "Mul3" -> << <<"Mul", <<a[1], OLD>>>> >>
     [] op = "SubP" -> << <<"Sub", a>> >>
     [] op = "I_negneg" -> << <<"Neg", <<a[1]>>>>, <<"Neg", <<v1>>>> >>
@@ -795,7 +798,7 @@ WithExtFn(mm) ==
              !.graphs = Append(@, g), !.funcs = Append(@, fg)]
 HasExt(rs) == \E i \in 1..Len(rs.rules) : rs.rules[i] = "ext"
 InitModel0(rs) ==
-  LET base == <<V("a", NC, 1, 0), V("b", NC, 1, 0), V("c", NC, 1, 0), V("one", 1, 1, 0), V("trip", 2, 1, 0), V("ctrue", 1, 1, 0),
+  LET base == <<V("a", NC, 1, 0), V("b", NC, 1, 0), V("c", NC, 1, 0), V(IF "Mul1v" \in rs.ops THEN "one1" ELSE "one", 1, 1, 0), V("trip", 2, 1, 0), V("ctrue", 1, 1, 0),
                 V(IF rs.clash THEN "a_two" ELSE "three", 3, 1, 0)>>
       main == GR("main", <<A, B, C>>, 0, << <<"", 18>> >>, NOFID) IN
   IF ~rs.wrap THEN [nodes |-> <<>>, vals |-> base, graphs |-> <<main>>, funcs |-> <<>>]
@@ -922,6 +925,8 @@ Q_keep     == {RS(<<"keep">>,              {"Neg"},                            X
                RS(<<"keep", "negneg">>,    {"Neg"},                            X, 3, 1, X, X, X, X, X, T)}
 Q_relurelu == {RS(<<"relurelu">>,          {"Relu"},                           X, 4, 1, T, X, X, X, X, X)}
 Q_mul1     == {RS(<<"mul1">>,              {"Mul1", "Mul1c", "Neg"},           c, 3, 1, T, X, X, X, X, X) : c \in BOOLEAN}
+\* near miss: the constant 1 has shape [1] (not neutral for a rank-0 operand): the scalar pattern constant must not match it
+Q_mul1v    == {RS(<<"mul1">>,              {"Mul1v", "Mul1vc", "Neg"},         c, 3, 1, X, X, X, X, X, X) : c \in BOOLEAN}
 Q_subneg   == {RS(<<"subneg">>,            {"Sub"},                            X, 2, 1, T, T, X, X, w, X) : w \in BOOLEAN}
               \cup {RS(<<"subneg">>,       {"Sub", "Relu"},                    X, 3, 1, T, X, T, X, X, X),
                     RS(<<"subneg">>,       {"SubP", "Relu"},                   X, 3, 1, X, T, X, X, X, X)}
@@ -944,7 +949,7 @@ Q_dag      == {RS(<<r>>,                   {"I_dag", "I_dagr", "Neg"},         X
               \cup {RS(<<"dagm">>,         {"I_dagm", "I_dagms", "Neg"},       X, 2, 1, X, X, X, X, w, X) : w \in BOOLEAN}
 \* a root node with an output the pattern does not bind: read elsewhere (not removable), unused, absent
 Q_drop     == {RS(<<"drop">>,              {"Drop", "I_drop2", "I_dropm", "Neg"}, X, 2, 1, T, X, X, X, w, X) : w \in BOOLEAN}
-QuickSets == Q_drop \cup Q_ext \cup Q_dag \cup Q_negneg \cup Q_keep \cup Q_relurelu \cup Q_mul1 \cup Q_subneg \cup Q_addsum \cup Q_chain \cup Q_dbl \cup Q_fn \cup Q_pair
+QuickSets == Q_mul1v \cup Q_drop \cup Q_ext \cup Q_dag \cup Q_negneg \cup Q_keep \cup Q_relurelu \cup Q_mul1 \cup Q_subneg \cup Q_addsum \cup Q_chain \cup Q_dbl \cup Q_fn \cup Q_pair
 \* thorough: one more step everywhere, loops in more families, depth 2 and single-node alphabets for the cheap ones
 T_negneg   == {RS(<<"negneg">>,            {"Neg"},                            X, 4, 1, T, T, X, X, X, T),
                RS(<<"negneg">>,            {"Neg"},                            X, 5, 1, T, X, X, X, X, X),
@@ -974,7 +979,7 @@ T_dag      == {RS(<<r>>,                   {"I_dag", "I_dagr", "Neg", "Relu"}, X
               \cup {RS(<<"dagm">>,         {"I_dagm", "I_dagms", "Neg", "Identity"}, X, 3, 1, X, X, X, X, w, X) : w \in BOOLEAN}
               \cup {RS(<<"dagm">>,         {"I_dagm", "Neg"},                  X, 2, 1, T, X, X, X, X, X)}
 T_drop     == {RS(rs,                      {"Drop", "I_drop2", "I_dropm", "Neg"}, X, 3, 1, T, T, X, X, w, X) : rs \in {<<"drop">>, <<"drop", "negneg">>}, w \in BOOLEAN}
-ThoroughSets == T_drop \cup T_ext \cup T_dag \cup T_negneg \cup T_keep \cup T_relurelu \cup T_mul1 \cup T_subneg \cup T_chain \cup T_dbl \cup T_fn \cup T_pair
+ThoroughSets == Q_mul1v \cup T_drop \cup T_ext \cup T_dag \cup T_negneg \cup T_keep \cup T_relurelu \cup T_mul1 \cup T_subneg \cup T_chain \cup T_dbl \cup T_fn \cup T_pair
 VacuitySets == {RS(<<"subneg">>, {"Sub"}, X, 2, 1, T, X, X, X, X, X), RS(<<"dbl">>, {"Add"}, X, 2, 1, X, X, X, X, X, X),
                 RS(<<"relurelu">>, {"Relu"}, X, 3, 1, X, X, X, X, X, X), RS(<<"pair">>, {"I_pairc"}, X, 1, 1, X, X, X, X, X, X),
                 RS(<<"drop">>, {"Drop", "I_dropm"}, X, 2, 1, X, X, X, X, X, X)}
